@@ -298,7 +298,7 @@ def c13(ctx):
         rspaces = [("lb123", renumber_ids(lb)), ("lb4s", renumber_ids(sample(ctx, lb4, 700)))]
     else:
         fspaces = [("lb123", renumber_ids(lb)), ("lb4", lb4), ("core3", core3), ("cond", renumber_ids(cond)),
-                   ("random_wild", randgen.random_pats(ctx.rng, "wildlb", 20000, depth=4, max_nodes=14))]
+                   ("random_wild", randgen.random_pats(ctx.rng, "wildlb", 6000, depth=4, max_nodes=11))]
         rspaces = [("lb123", renumber_ids(lb)), ("lb4", lb4)]
     for name, recs in fspaces:
         stats, rejects, cerr = run_simple(ctx, "TraceFacts", name, "facts", recs, tab)
